@@ -354,14 +354,11 @@ def eval_lin(F, fn, args, depth=7, budget=None, probe=None, self_ty=None):
                         a = new_atom("ceil")
                         outs = [([a.mulc(lv[1].c).sub(lv[0])], a)]          # k*ceil >= x
                 elif callee.endswith(("::Ord::min", "core::cmp::min")) and len(vals) == 2 and all(x is not None for x in lv):
-                    a = new_atom("min")
-                    outs = [([lv[0].sub(a), lv[1].sub(a)], a)]
+                    outs = [([lv[1].sub(lv[0])], lv[0]), ([lv[0].sub(lv[1])], lv[1])]            # exact, by case split
                 elif callee.endswith(("::Ord::max", "core::cmp::max")) and len(vals) == 2 and all(x is not None for x in lv):
-                    a = new_atom("max")
-                    outs = [([a.sub(lv[0]), a.sub(lv[1])], a)]
+                    outs = [([lv[0].sub(lv[1])], lv[0]), ([lv[1].sub(lv[0])], lv[1])]
                 elif callee.endswith("::saturating_sub") and len(vals) == 2 and all(x is not None for x in lv):
-                    a = new_atom("ssub")
-                    outs = [([lv[0].sub(a)], a)]
+                    outs = [([lv[0].sub(lv[1])], lv[0].sub(lv[1])), ([lv[1].sub(lv[0])], Lin(0))]
                 elif callee.endswith("Try>::branch") and len(vals) == 1 and isinstance(vals[0], Agg) and vals[0].variant in ("Some", "Ok", "None", "Err"):
                     a0 = vals[0]
                     if a0.variant in ("Some", "Ok"):
@@ -383,6 +380,8 @@ def eval_lin(F, fn, args, depth=7, budget=None, probe=None, self_ty=None):
                 elif re.search(r"::len$", callee) and len(vals) == 1:
                     nm = vals[0].name if isinstance(vals[0], Opq) else "?"
                     outs = [([], Lin.atom("len(%s)" % nm))]
+                elif callee.endswith("read::unchecked_bit_range_be_read") and len(vals) == 2 and isinstance(vals[1], Agg) and all(isinstance(x, Lin) and x.is_const() for x in vals[1].fields):
+                    outs = [([], Lin.atom("read[bits %d..%d]" % (vals[1].fields[0].c, vals[1].fields[1].c)))]
                 elif callee and F.has_body(callee) and is_reader(F, callee):
                     outs = [([], Lin.atom(short(callee)))]
                 elif callee and F.has_body(callee) and kk.get("rk") in ("item", None) and callee.startswith(("sciparse::", "<sciparse::")) and depth > 0:
